@@ -37,6 +37,7 @@ RULE_TEXT = (
     'every write statement after `evolving` gets sql_error@k. evaluations = '
     'histories; distinct_nontrivial = distinct script/shape digests whose '
     'fault fired at least once; fault_points = (run, k) pairs executed.')
+RULE_TEXT += ' A quarter of the histories are C10 hand-over histories with migrations, 60% of those with pre-existing tables of the migrations-only app.'
 ASSUMPTIONS = [
     'signals are emitted by Evolver.evolve(): "before any change" is judged '
     'from the start of the process up to `evolving`, not counting the '
